@@ -12,7 +12,13 @@ Cases (first component is the tag, see coq/Run/C17_run.v):
                      (0, i) push rdds[i].stats();  (1, 0) r = pop, l = pop, push l.mergeStats(r);  (2, 0) s = pop, push
                      s.mergeStats(s);  (3, v) s = pop, push s.merge(v);  (4, j) observe RDD j again (stats() fields and
                      the RDD-level accessors).  Result: (observations, summaries left on the stack).
+  (5, parts, oprog)  a session on a pool of StatCounter OBJECTS that several folds reuse: slot k starts as
+                     StatCounter(parts[k]); oprog is a list of (opcode, i, arg): (0, 0, 0) append a fresh StatCounter();
+                     (1, i, 0) append slot[i].copy();  (2, i, j) slot[i].mergeStats(slot[j]);  (3, i, v) slot[i].merge(v).
+                     Result: (the five fields of EVERY live object after EVERY step, full views of all objects at the end).
+  (6, parts, oprog)  the same on CovarianceCounter objects (copy.deepcopy, merge, add((x, y))).
 """
+import copy as _copy
 import glob
 import itertools
 import json
@@ -45,7 +51,10 @@ RULE = ('cases: (a) every list over a small integer alphabet up to a length boun
         'df.corr; (f) sessions on a few RDD objects that are REUSED: the summaries returned by rdd.stats() are merged as '
         'receiver / argument / with themselves or get values folded in, and the same RDDs are asked for all their '
         'summaries again afterwards (every later summary is compared with the two-pass value of that RDD); RDDs with '
-        'leading empty partitions and sizes 1|>=11, >=11|1; a few non-finite / overflowing inputs for the bit-exactness '
+        'leading empty partitions and sizes 1|>=11, >=11|1; (g) pools of StatCounter / CovarianceCounter OBJECTS reused by '
+        'several folds that start from EMPTY receivers (a partial merged into an empty receiver, further merges into that '
+        'receiver, the partial used again in another fold, merged into two receivers, receiver merged back, copies, '
+        'self-merges): the fields of EVERY live object are compared after EVERY step; a few non-finite / overflowing inputs for the bit-exactness '
         'of the float model only. '
         'non-trivial = at least two data values and at least one merge of two non-empty partial summaries; '
         'distinct by canonical JSON of the case')
@@ -66,7 +75,7 @@ TRUSTED = ['translator kernels of Gen/StatCounter.v and Gen/Covariance.v',
 SHARD = 400
 
 TOL = Fraction(1, 10 ** 9)
-NAMES = {0: 'rdd', 1: 'tree', 2: 'df', 3: 'covtree', 4: 'session'}
+NAMES = {0: 'rdd', 1: 'tree', 2: 'df', 3: 'covtree', 4: 'session', 5: 'objects', 6: 'covobjects'}
 ACCESSORS = ['count', 'mean', 'sum', 'min', 'max', 'variance', 'stdev', 'sampleVariance', 'sampleStdev']
 
 _ctx = None
@@ -209,7 +218,41 @@ def _impl(case):
     if tag == 3:
         c = _eval_prog(case[1], case[2], _cov_leaf, lambda a, b: a.merge(b))
         return _cc_view(c)
+    if tag in (5, 6):
+        return _impl_objects(case)
     raise ValueError('bad tag')
+
+
+def _impl_objects(case):
+    tag, parts, prog = case
+    if tag == 5:
+        slots = [StatCounter(list(p)) for p in parts]
+        fields = lambda c: tuple(_sc_fields(c))                    # noqa: E731
+        full = _counter_view
+    else:
+        slots = [_cov_leaf(p) for p in parts]
+        fields = lambda c: _cc_view(c)[:6]                          # noqa: E731
+        full = _cc_view
+    trace = []
+    for op, i, arg in prog:
+        if op == 0:
+            slots.append(StatCounter() if tag == 5 else CovarianceCounter('pearson'))
+        elif op == 1:
+            slots.append(slots[i].copy() if tag == 5 else _copy.deepcopy(slots[i]))
+        elif op == 2:
+            if tag == 5:
+                slots[i].mergeStats(slots[arg])
+            else:
+                slots[i].merge(slots[arg])
+        elif op == 3:
+            if tag == 5:
+                slots[i].merge(arg)
+            else:
+                slots[i].add(arg[0], arg[1])
+        else:
+            raise ValueError('bad op')
+        trace.append([fields(c) for c in slots])     # every live object, after every step
+    return (trace, [full(c) for c in (slots if prog else [])])
 
 
 # ------------------------------------------------------------------------------------------- oracle
@@ -251,6 +294,23 @@ def _session_data(case):
         elif op == 4:
             obs.append((arg, list(rdds[arg])))
     return obs, stack
+
+
+def _objects_data(case):
+    """The data every slot should describe after every step (value semantics: only the receiver changes)."""
+    slots = [list(p) for p in case[1]]
+    trace = []
+    for op, i, arg in case[2]:
+        if op == 0:
+            slots.append([])
+        elif op == 1:
+            slots.append(list(slots[i]))
+        elif op == 2:
+            slots[i] = slots[i] + slots[arg]
+        elif op == 3:
+            slots[i] = slots[i] + [arg]
+        trace.append([list(d) for d in slots])
+    return trace
 
 
 def _finite(xs):
@@ -401,10 +461,69 @@ def _oracle_session(case, result):
     return None
 
 
+OPNAMES = {0: 'new', 1: 'copy', 2: 'merge', 3: 'add'}
+
+
+def _oracle_objects(case, result):
+    tag = case[0]
+    site = 'StatCounter.objects' if tag == 5 else 'CovarianceCounter.objects'
+    if isinstance(result, Err):
+        return (f'{site}:raises', f'raised {result.name}')
+    try:
+        want = _objects_data(case)
+    except (IndexError, TypeError):
+        return None
+    trace, final = result
+    flat = [v for pool in want for d in pool for v in d]
+    if tag == 6:
+        flat = [v for r in flat for v in r]
+    if not _in_domain(flat, *((1e-100, 1e100) if tag == 5 else (1e-60, 1e60))):
+        return None
+    for t, (pool_d, pool_v) in enumerate(zip(want, trace)):
+        op, i, arg = case[2][t]
+        for k, (d, f) in enumerate(zip(pool_d, pool_v)):
+            role = 'receiver' if (k == i and op in (2, 3)) else ('argument' if (op == 2 and k == arg) else 'bystander')
+            where = f'after step {t} ({OPNAMES[op]} {i} {arg!r}) object {k} ({role})'
+            if any(isinstance(x, Err) for x in f):
+                return (f'{site}:live-object:raises', f'{where}: field access raised')
+            n = f[0]
+            if n != len(d):
+                return (f'{site}:live-object:count', f'{where}: count {n}, its data has {len(d)} values')
+            if n == 0:
+                continue
+            if tag == 5:
+                acc = {'count': n, 'mean': f[1], 'variance': f[2] / n, 'max': f[3], 'min': f[4]}
+                o = _check_stats(f'{site}:live-object', acc, d)
+            else:
+                o = _check_cov(f'{site}:live-object', d, _SKIP, f[3] / n, _SKIP)
+                if o is None:
+                    ref = two_pass_cov(d)
+                    xs = two_pass([r[0] for r in d])
+                    ys = two_pass([r[1] for r in d])
+                    if not (_close(f[1], xs['mean'], TOL * ref['Mx']) and _close(f[2], ys['mean'], TOL * ref['My'])):
+                        o = (f'{site}:live-object:mean', f'xAvg/yAvg = {f[1]!r}/{f[2]!r}')
+                    elif not (_close(f[4] / n, xs['variance'], TOL * ref['Mx'] ** 2)
+                              and _close(f[5] / n, ys['variance'], TOL * ref['My'] ** 2)):
+                        o = (f'{site}:live-object:variance', f'MkX/MkY = {f[4]!r}/{f[5]!r}')
+            if o is not None:
+                return (o[0], f'{where}: {o[1]}')
+    if want:
+        for k, (d, view) in enumerate(zip(want[-1], final)):
+            if tag == 5:
+                o = _check_stats(f'{site}:final', dict(zip(ACCESSORS, view[5:])), d)
+            else:
+                o = _check_cov(f'{site}:final', d, view[6], view[7], view[8])
+            if o is not None:
+                return (o[0], f'object {k} at the end: {o[1]}')
+    return None
+
+
 def oracle(case, result):
     tag = case[0]
     if tag == 4:
         return _oracle_session(case, result)
+    if tag in (5, 6):
+        return _oracle_objects(case, result)
     data = _data_of(case)
     if tag in (0, 1):
         if not _in_domain(data, 1e-100, 1e100):
@@ -511,13 +630,50 @@ def _session_flags(case):
     return flags
 
 
+def _objects_flags(case):
+    """E: an empty receiver merges a non-empty summary; A: that receiver is merged into again; U: a summary that was
+    adopted by an empty receiver is used again later (as argument or receiver); C copy; S self-merge; F add."""
+    flags = set()
+    sizes = [len(p) for p in case[1]]
+    adopted = {}        # receiver -> the partial it took over while empty
+    for op, i, arg in case[2]:
+        try:
+            if op == 0:
+                sizes.append(0)
+            elif op == 1:
+                sizes.append(sizes[i])
+                flags.add('C')
+            elif op == 2:
+                if i == arg:
+                    flags.add('S')
+                if sizes[i] == 0 and sizes[arg] > 0 and i != arg:
+                    flags.add('E')
+                    adopted[i] = arg
+                elif i in adopted and sizes[arg] > 0:
+                    flags.add('A')
+                if arg in adopted.values() or i in adopted.values():
+                    if any(r != i or a != arg for r, a in adopted.items()):
+                        flags.add('U')
+                sizes[i] += sizes[arg]
+            elif op == 3:
+                flags.add('F')
+                sizes[i] += 1
+        except IndexError:
+            break
+    return flags
+
+
 def kind(case):
+    if case[0] in (5, 6):
+        return NAMES[case[0]] + '/' + ''.join(sorted(_objects_flags(case)))
     if case[0] == 4:
         return 'session/' + ''.join(sorted(_session_flags(case)))
     return NAMES[case[0]] + '/' + ''.join(sorted(_branches(case)))
 
 
 def nontrivial(case, result):
+    if case[0] in (5, 6):
+        return bool(_objects_flags(case) & {'E', 'A', 'S'}) and not isinstance(result, Err)
     if case[0] == 4:
         return 'R' in _session_flags(case) and not isinstance(result, Err)
     b = _branches(case)
@@ -725,6 +881,77 @@ FIXED_SESSIONS = [
 ]
 
 
+def rand_objects(rng, tag):
+    """A pool of partial summaries (some empty) and a program that starts from EMPTY receivers and reuses the same
+    partial objects in several folds: fold all partials into a fresh receiver, fold them again (other order) into
+    another one, merge a partial into two receivers, merge a receiver back into a partial, copies, self-merges."""
+    k = rng.randint(1, 4)
+    parts = []
+    for _ in range(k):
+        n = rng.choice([0, 1, 1, 2, 3, 5, 12])
+        parts.append(rand_pairs(rng, n) if tag == 6 else rand_number_list(rng, n))
+    prog, nslots = [], k
+
+    def fold_all(order):
+        nonlocal nslots
+        prog.append((0, 0, 0))
+        recv = nslots
+        nslots += 1
+        for j in order:
+            prog.append((2, recv, j))
+        return recv
+    receivers = []
+    for _ in range(rng.randint(1, 3)):
+        order = list(range(k))
+        rng.shuffle(order)
+        if rng.random() < 0.3:
+            order = order[:rng.randint(1, k)]
+        if receivers and rng.random() < 0.4:
+            order.insert(rng.randint(0, len(order)), rng.choice(receivers))     # an earlier receiver as a partial
+        receivers.append(fold_all(order))
+        c = rng.random()
+        if c < 0.25:
+            prog.append((2, rng.randrange(k), receivers[-1]))                   # the receiver merged back into a partial
+        elif c < 0.4:
+            prog.append((1, rng.randrange(nslots), 0))                          # copy, then merge the copy somewhere
+            nslots += 1
+            prog.append((2, rng.randrange(nslots), nslots - 1))
+        elif c < 0.5:
+            j = rng.randrange(nslots)
+            prog.append((2, j, j))                                              # self-merge
+        elif c < 0.65:
+            v = (rng.randint(-9, 9), float(rng.randint(-9, 9))) if tag == 6 else rng.choice([rng.randint(-9, 9), rand_float(rng)])
+            prog.append((3, rng.randrange(nslots), v))
+    for _ in range(rng.randint(0, 3)):                                          # a few arbitrary steps
+        prog.append((2, rng.randrange(nslots), rng.randrange(nslots)))
+    # keep self-merges rare enough for the data not to explode
+    if sum(1 for op, i, j in prog if op == 2 and i == j) > 2 or len(prog) > 16:
+        prog = prog[:16]
+        seen = 0
+        out = []
+        for st in prog:
+            if st[0] == 2 and st[1] == st[2]:
+                seen += 1
+                if seen > 2:
+                    continue
+            out.append(st)
+        prog = out
+    return (tag, parts, prog)
+
+
+FIXED_OBJECTS = [
+    # the class named by the coordinator: empty receiver adopts a; a further non-empty merge; a second fold uses a again
+    (5, [[1, 2], [7]], [(0, 0, 0), (2, 2, 0), (2, 2, 1), (0, 0, 0), (2, 3, 0), (2, 3, 1)]),
+    (5, [[1, 2], [7], [10, 20, 30]], [(0, 0, 0), (2, 3, 0), (2, 3, 1), (2, 3, 2), (0, 0, 0), (2, 4, 2), (2, 4, 1), (2, 4, 0)]),
+    # the same partial merged into two different receivers, the receiver merged back into the partial
+    (5, [[3, 5]], [(0, 0, 0), (0, 0, 0), (2, 1, 0), (2, 2, 0), (3, 1, 100), (2, 0, 1)]),
+    # copy(), then merge; self-merge of a receiver that adopted a partial
+    (5, [[1.5, 2.5], [4]], [(0, 0, 0), (2, 2, 0), (1, 2, 0), (2, 3, 1), (2, 2, 2), (3, 0, 9)]),
+    (6, [[(1, 2.0), (3, 1.0)], [(2, 2.0)]], [(0, 0, 0), (2, 2, 0), (2, 2, 1), (0, 0, 0), (2, 3, 0), (2, 3, 1), (2, 0, 3)]),
+    (6, [[(0, 1)], [(1, 0), (2, 2)]], [(0, 0, 0), (0, 0, 0), (2, 2, 0), (2, 3, 0), (3, 2, (5, 5.0)), (1, 2, 0), (2, 4, 1)]),
+]
+
+
 SPECIAL = [float('inf'), float('-inf'), float('nan'), 1e308, -1e308, 1e200, 1e-320, 0.0, -0.0, 1.5]
 
 
@@ -744,6 +971,9 @@ def _listify(case):
     tag = case[0]
     if tag == 4:
         return (4, [[list(p) for p in parts] for parts in case[1]], [tuple(op) for op in case[2]])
+    if tag in (5, 6):
+        parts = [[tuple(r) if tag == 6 else r for r in p] for p in case[1]]
+        return (tag, parts, [(op[0], op[1], tuple(op[2]) if isinstance(op[2], (list, tuple)) else op[2]) for op in case[2]])
     parts = [[tuple(r) if tag in (2, 3) else r for r in p] for p in case[1]]
     return (tag, parts) + tuple(list(x) for x in case[2:])
 
@@ -843,6 +1073,13 @@ def generate(rng, tier):
     cases.extend(FIXED_SESSIONS)
     for _ in range(200 if quick else 3000):
         cases.append(rand_session(rng))
+    # --- (g) pools of summary OBJECTS reused by several folds that start from EMPTY receivers (aliasing between partial
+    #         summaries): every live object is compared after every step
+    cases.extend(FIXED_OBJECTS)
+    for _ in range(220 if quick else 2500):
+        cases.append(rand_objects(rng, 5))
+    for _ in range(80 if quick else 1000):
+        cases.append(rand_objects(rng, 6))
     # RDDs whose first partitions are empty and whose sizes are very unequal (1 | >= 11 and >= 11 | 1)
     for _ in range(60 if quick else 600):
         n = rng.randint(12, 40)
@@ -903,7 +1140,24 @@ def _shrink_session(case):
             yield (4, rdds, prog[:i] + [(3, 1)] + prog[i + 1:])
 
 
+def _shrink_objects(case):
+    tag, parts, prog = case
+    for n in range(1, len(prog)):                 # a prefix of the program first (the earliest wrong step)
+        yield (tag, parts, prog[:n])
+    for i in range(len(prog)):
+        yield (tag, parts, prog[:i] + prog[i + 1:])
+    simple = _ranked(parts, tag == 6)
+    if simple != parts:
+        yield (tag, simple, prog)
+    for i, p in enumerate(parts):
+        for j in range(len(p)):
+            yield (tag, parts[:i] + [p[:j] + p[j + 1:]] + parts[i + 1:], prog)
+
+
 def shrink_candidates(case):
+    if case[0] in (5, 6):
+        yield from _shrink_objects(case)
+        return
     if case[0] == 4:
         yield from _shrink_session(case)
         return
